@@ -2,22 +2,25 @@
  * real ones in the same translation unit; calls from get_perm_c are REPLACED by these contracts: "replace" in unit.json).
  * ASSUMED (trusted): what the routines allocate and return, read off SRC/get_perm_c.c lines 166-174 and 299-307:
  *   - *bnz >= 0 is the number of off-diagonal entries of A'*A resp. A'+A,
- *   - *b_colptr is a fresh array of n+1 entries (always), *b_rowind a fresh array of *bnz entries ONLY IF *bnz != 0,
+ *   - *b_colptr is a newly allocated array of n+1 entries (always), *b_rowind one of *bnz entries ONLY IF *bnz != 0,
  *   - marker / t_colptr / t_rowind are released before returning (nothing else stays allocated).
  * This unit selects the empty-adjacency outcome (*bnz == 0: A'*A resp. A'+A is diagonal, e.g. every diagonal matrix):
- * the contract returns *bnz == 0, i.e. exactly ONE array (*b_colptr) is handed to the caller. */
+ * the contract returns *bnz == 0, i.e. exactly ONE array (*b_colptr) is handed to the caller.
+ * The array is the heap object g_colptr_obj that the harness allocates just before the call (an is_fresh in the replaced
+ * contract costs 250 s here, the token object 5 s); get_perm_c may free it (__CPROVER_frees in the spec). */
+#include <stdlib.h>
 #include "slu_mt_@p@defs.h"
-extern int g_n_malloc, g_n_free;
+extern int g_n_malloc, g_n_free; int_t *g_colptr_obj;
 void getata(const int_t m, const int_t n, const int_t nz, int_t *colptr, int_t *rowind,
             int_t *atanz, int_t **ata_colptr, int_t **ata_rowind)
   __CPROVER_requires(0 <= n && n <= CAP && 0 <= m)
   __CPROVER_assigns(*atanz, *ata_colptr)
-  __CPROVER_ensures(*atanz == 0 && __CPROVER_is_fresh(*ata_colptr, (n + 1) * sizeof(int_t)));
+  __CPROVER_ensures(*atanz == 0 && *ata_colptr == g_colptr_obj);
 void at_plus_a(const int_t n, const int_t nz, int_t *colptr, int_t *rowind,
                int_t *bnz, int_t **b_colptr, int_t **b_rowind)
   __CPROVER_requires(0 <= n && n <= CAP)
   __CPROVER_assigns(*bnz, *b_colptr)
-  __CPROVER_ensures(*bnz == 0 && __CPROVER_is_fresh(*b_colptr, (n + 1) * sizeof(int_t)));
+  __CPROVER_ensures(*bnz == 0 && *b_colptr == g_colptr_obj);
 /* inputs: file-scope, nondeterministic initial values */
 extern int g_seq;
 int_t g_i;
@@ -25,6 +28,7 @@ int_t in_ispec; SuperMatrix in_A; NCformat in_Astore; int_t in_colptr[CAP+1], in
 void get_perm_c(int_t, SuperMatrix *, int_t *);
 void h_get_perm_c(void) {
   in_A.Store = &in_Astore; in_Astore.colptr = in_colptr; in_Astore.rowind = in_rowind;
+  g_colptr_obj = malloc((CAP + 1) * sizeof(int_t)); __CPROVER_assume(g_colptr_obj != NULL);
   get_perm_c(in_ispec, &in_A, in_perm_c);
   __CPROVER_assert(0, "canary: get_perm_c returns");
   if (in_ispec == 1 && in_A.ncol == 3) __CPROVER_assert(0, "canary: A'*A ordering, order 3");
